@@ -2,9 +2,14 @@ package log
 
 import (
 	"context"
+	"math"
 	"runtime"
 	"time"
 )
+
+func mathFloat64frombits(b uint64) float64 { return math.Float64frombits(b) }
+func mathNaN() float64                     { return math.NaN() }
+func mathInf(s int) float64                { return math.Inf(s) }
 
 func timeNowMinusHours(h int) time.Time { return time.Now().Add(-time.Duration(h) * time.Hour) }
 
